@@ -30,7 +30,7 @@ func init() {
 		Quick: 300000, Thorough: 20000000,
 		Run:        runC02,
 		Rule:       "one run = one generated target type, an initial target state (zero or pre-populated: non-nil maps, slices, pointers, pointers to pointers, interface fields holding pointers) and a history of 2..8 decodes into the same target through Unmarshal / Parse(b,x,0) / Decoder.Decode with each subset of {UseNumber, DisallowUnknownFields}, mirrored step by step on encoding/json with an isomorphic target; documents are encoding/json's own encoding of fresh values of the type, mutated at the value-tree level (always syntactically valid JSON). non-trivial = at least one decode after the first hit a target that already held data (a non-empty prior state); distinct = distinct hash of (type, initial state, documents, entry points)",
-		FaultKinds: []string{"prior-state:prepopulated", "prior-state:left-by-earlier-decode", "prior-state:after-failed-decode(rebuilt)", "doc:null-subvalue", "doc:key-dropped", "doc:unknown-key", "doc:duplicate-key", "doc:key-case-changed", "doc:array-shortened", "doc:array-lengthened", "doc:kind-swapped", "doc:integer-boundary", "doc:quoted-literal", "doc:top-level-empty", "entry:Unmarshal", "entry:Parse", "entry:Decoder", "entry:Decoder+UseNumber", "entry:Decoder+DisallowUnknownFields", "entry:Decoder-stream(one Decoder, successive values into one target)", "stream-document-straddles-first-buffer-fill"},
+		FaultKinds: []string{"prior-state:prepopulated", "prior-state:left-by-earlier-decode", "prior-state:after-failed-decode(rebuilt)", "doc:null-subvalue", "doc:key-dropped", "doc:unknown-key", "doc:duplicate-key", "doc:key-case-changed", "doc:array-shortened", "doc:array-lengthened", "doc:kind-swapped", "doc:integer-boundary", "doc:quoted-literal", "doc:top-level-empty", "entry:Unmarshal", "entry:Parse", "entry:Decoder", "entry:Decoder+UseNumber", "entry:Decoder+DisallowUnknownFields", "entry:Decoder-stream(one Decoder, successive values into one target)", "stream-document-straddles-first-buffer-fill", "option-switched-on-between-two-decodes"},
 		ProbeNames: []string{"steps", "steps-both-ok", "steps-both-failed", "map-merged-into-non-empty", "slice-reused-with-capacity", "pointer-reused", "interface-held-pointer-present", "input-dimension-divergence-on-fresh-target(skipped, not claimed)"},
 		Real:       []string{"json.Unmarshal, json.Parse, json.Decoder and the whole decode path compiled from /repo's working tree with sync and sync/atomic redirected to the shim (deterministic simulated sync.Pool, pristine library state before every run)"},
 		Model:      []string{"reference model: encoding/json of the toolchain applied to an isomorphic target, step by step"},
@@ -487,6 +487,10 @@ type c02Scenario struct {
 	Stream bool `json:"stream,omitempty"`
 	// Pad: spaces in front of a stream (a document then straddles a buffer fill).
 	Pad int `json:"pad,omitempty"`
+	// OptAt > 0: before the Decode of step OptAt the options of entry OptEntry are
+	// switched on (stream mode).
+	OptAt    int `json:"opt_at,omitempty"`
+	OptEntry int `json:"opt_entry,omitempty"`
 	// Preset names a hand-built initial state (literal witnesses): "iface-ptr-int"
 	// = a C02Rich whose I holds a *int and whose IP points to an interface
 	// holding a *int.
@@ -658,6 +662,24 @@ func c02GenScenario(r *core.Run) *c02Scenario {
 		e := 2 + t.Intn(4)
 		for i := range sc.Steps {
 			sc.Steps[i].Entry = e
+		}
+		if e < 5 && len(sc.Steps) > 1 && t.Chance(1, 4) {
+			// an option switched on between two Decodes of the stream
+			sc.OptAt = 1 + t.Intn(len(sc.Steps)-1)
+			sc.OptEntry = map[int][]int{2: {3, 4, 5}, 3: {5}, 4: {5}}[e][t.Intn(len(map[int][]int{2: {3, 4, 5}, 3: {5}, 4: {5}}[e]))]
+		}
+		if t.Chance(1, 6) {
+			// one of the documents is large (an unknown member of 30..40 KB in front):
+			// the Decoder's buffer has to grow in the middle of the stream
+			k := t.Intn(len(sc.Steps))
+			if d := sc.Steps[k].Doc; len(d) > 1 && d[0] == '{' {
+				big := append([]byte(`{"zzbig":"`), bytes.Repeat([]byte{'x'}, 30000+t.Intn(10000))...)
+				big = append(big, '"')
+				if d[1] != '}' {
+					big = append(big, ',')
+				}
+				sc.Steps[k].Doc = append(big, d[1:]...)
+			}
 		}
 		if t.Chance(1, 3) {
 			// leading whitespace that makes one of the documents straddle the
@@ -844,6 +866,18 @@ func c02RunStream(r *core.Run, sc *c02Scenario, rt reflect.Type, seg, std reflec
 		rd.DisallowUnknownFields()
 	}
 	for i, s := range sc.Steps {
+		if sc.OptAt > 0 && i == sc.OptAt {
+			if (sc.OptEntry == 3 || sc.OptEntry == 5) && entry != 3 && entry != 5 {
+				sd.UseNumber()
+				rd.UseNumber()
+			}
+			if (sc.OptEntry == 4 || sc.OptEntry == 5) && entry != 4 && entry != 5 {
+				sd.DisallowUnknownFields()
+				rd.DisallowUnknownFields()
+			}
+			entry = sc.OptEntry
+			r.Fault("option-switched-on-between-two-decodes")
+		}
 		r.Probe("steps")
 		r.Steps++
 		r.SigAddBytes(s.Doc)
